@@ -8,13 +8,9 @@
         let m: usize = kani::any();
         kani::assume(n <= 5 && m >= 1 && m <= 3);
         kani::assume(hay[0] < 2 && hay[1] < 2 && hay[2] < 2 && hay[3] < 2 && hay[4] < 2 && needle[0] < 2 && needle[1] < 2 && needle[2] < 2);
-        let mut tokens: Vec<Rc<u8>> = Vec::with_capacity(8);
-        let mut rule: Vec<Rc<u8>> = Vec::with_capacity(4);
-        let mut i = 0;
-        while i < 5 { if i < n { tokens.push(Rc::new(hay[i])); } i += 1; }
-        let mut j = 0;
-        while j < 3 { if j < m { rule.push(Rc::new(needle[j])); } j += 1; }
-        let got = find_location(&tokens[..], &rule[..]);
+        let tokens: [Rc<u8>; 5] = [Rc::new(hay[0]), Rc::new(hay[1]), Rc::new(hay[2]), Rc::new(hay[3]), Rc::new(hay[4])];
+        let rule: [Rc<u8>; 3] = [Rc::new(needle[0]), Rc::new(needle[1]), Rc::new(needle[2])];
+        let got = find_location(&tokens[..n], &rule[..m]);
         // spec: first s with hay[s..s+m] == needle[..m]
         let mut want: Option<usize> = None;
         let mut s = 0;
